@@ -1,0 +1,93 @@
+//go:build verif
+
+// Copyright Istio Authors
+//
+// Licensed under the Apache License, Version 2.0 (the "License");
+// you may not use this file except in compliance with the License.
+// You may obtain a copy of the License at
+//
+//     http://www.apache.org/licenses/LICENSE-2.0
+//
+// Unless required by applicable law or agreed to in writing, software
+// distributed under the License is distributed on an "AS IS" BASIS,
+// WITHOUT WARRANTIES OR CONDITIONS OF ANY KIND, either express or implied.
+// See the License for the specific language governing permissions and
+// limitations under the License.
+
+package model
+
+import (
+	"time"
+
+	"istio.io/istio/pkg/util/sets"
+	"istio.io/istio/pkg/verif"
+)
+
+func hasKey[K comparable, V any](m map[K]V, k K) bool {
+	_, ok := m[k]
+	return ok
+}
+
+// ---------------------------------------------------------------------------------------------
+// C02: merge algebra of push requests
+// ---------------------------------------------------------------------------------------------
+
+//verif:contract (ReasonStats).Merge
+//verif:prop C02
+func ctReasonStatsMerge(r, other ReasonStats) {
+	verif.Requires("receiver-non-nil-or-nothing-to-add", r != nil || len(other) == 0)
+	r.Merge(other)
+	verif.Ensures("keys-union", verif.Forall(func(k TriggerReason) bool {
+		return hasKey(r, k) == (verif.Old(func() bool { return hasKey(r, k) }) || verif.Old(func() bool { return hasKey(other, k) }))
+	}))
+	verif.Ensures("counts-add", verif.Forall(func(k TriggerReason) bool {
+		return r[k] == verif.Old(func() int { return r[k] })+verif.Old(func() int { return other[k] })
+	}))
+}
+
+//verif:invariant (ReasonStats).Merge 1
+func invReasonStatsMerge(r, other ReasonStats) bool {
+	return verif.Forall(func(k TriggerReason) bool {
+		oldR := verif.Old(func() int { return r[k] })
+		oldO := verif.Old(func() int { return other[k] })
+		hadR := verif.Old(func() bool { return hasKey(r, k) })
+		hadO := verif.Old(func() bool { return hasKey(other, k) })
+		if verif.Visited(other, k) {
+			return hasKey(r, k) == (hadR || hadO) && r[k] == oldR+oldO
+		}
+		return hasKey(r, k) == hadR && r[k] == oldR && hasKey(other, k) == hadO && other[k] == oldO
+	})
+}
+
+func sameKeys[K comparable](a, b sets.Set[K]) bool {
+	return verif.Forall(func(k K) bool { return hasKey(a, k) == hasKey(b, k) })
+}
+
+//verif:contract (*PushRequest).Merge
+//verif:prop C02
+func ctPushRequestMerge(pr, other *PushRequest) {
+	m := pr.Merge(other)
+	both := pr != nil && other != nil
+	verif.Ensures("nil-receiver-returns-other", pr != nil || m == other)
+	verif.Ensures("nil-other-returns-receiver", !(pr != nil && other == nil) || m == pr)
+	verif.Ensures("returns-receiver", !both || m == pr)
+	// from the statement: "the merged request always covers the union of changed keys"
+	verif.Ensures("configs-union", !both || verif.Forall(func(k ConfigKey) bool {
+		return hasKey(m.ConfigsUpdated, k) == (verif.Old(func() bool { return hasKey(pr.ConfigsUpdated, k) }) || verif.Old(func() bool { return hasKey(other.ConfigsUpdated, k) }))
+	}))
+	verif.Ensures("addresses-union", !both || verif.Forall(func(k string) bool {
+		return hasKey(m.AddressesUpdated, k) == (verif.Old(func() bool { return hasKey(pr.AddressesUpdated, k) }) || verif.Old(func() bool { return hasKey(other.AddressesUpdated, k) }))
+	}))
+	verif.Ensures("waypoints-union", !both || verif.Forall(func(k WaypointReference) bool {
+		return hasKey(m.WaypointsUpdated, k) == (verif.Old(func() bool { return hasKey(pr.WaypointsUpdated, k) }) || verif.Old(func() bool { return hasKey(other.WaypointsUpdated, k) }))
+	}))
+	// "stays forced if any input was forced"
+	verif.Ensures("forced-or", !both || m.Forced == (verif.Old(func() bool { return pr.Forced }) || verif.Old(func() bool { return other.Forced })))
+	// "uses the newest snapshot"
+	verif.Ensures("newest-snapshot", !both || (verif.Old(func() *PushContext { return other.Push }) != nil && m.Push == verif.Old(func() *PushContext { return other.Push })) ||
+		(verif.Old(func() *PushContext { return other.Push }) == nil && m.Push == verif.Old(func() *PushContext { return pr.Push })))
+	verif.Ensures("oldest-start", !both || m.Start == verif.Old(func() time.Time { return pr.Start }))
+	verif.Ensures("reason-counts-add", !both || verif.Forall(func(k TriggerReason) bool {
+		return m.Reason[k] == verif.Old(func() int { return pr.Reason[k] })+verif.Old(func() int { return other.Reason[k] })
+	}))
+}
